@@ -370,8 +370,8 @@ The dump text never passes through `PHRQ_io`. `dump_info` (`on`, the selection, 
 calls. `Phreeqc::dump_ostream` ends with `dump_info.SetAll(false)` ("turn off dump until next read"). Per simulation:
 `save := dump_info`; with the file switch on `dump_entities` runs (needs `on` and `pr.dump`, clears `on`, writes —
 and thereby clears the selection — when the selection is not empty); with the string switch on `dump_info := save`
-and the string is written (and the selection cleared) whenever the selection is not empty — `on` and `pr.dump` are
-not consulted. -/
+and the string is written (and the selection cleared) when `pr.dump` is on and the selection is not empty — `on` is
+not consulted (since fix f2ff7714 `pr.dump` is; before it the string ignored PRINT -dump false). -/
 
 structure DumpInfo where
   on : Bool := false
@@ -385,8 +385,10 @@ structure DumpSt where
   str : List Char := []
 deriving DecidableEq, Repr
 
-/-- `read_dump`: a DUMP block with a selection -/
-def DumpSt.readDump (s : DumpSt) (append : Bool) : DumpSt := { s with info := ⟨true, true, append⟩ }
+/-- `read_dump`: a DUMP block with a selection; `append` = the value of an `-append` option, `none` when the block has
+none (the flag of an earlier block then stays in force: `dumper::Read` does not reset it) -/
+def DumpSt.readDump (s : DumpSt) (append : Option Bool) : DumpSt :=
+  { s with info := ⟨true, true, append.getD s.info.append⟩ }
 
 def putDump (append : Bool) (old d : List Char) : List Char := if append then old ++ d else d
 
@@ -395,17 +397,21 @@ def dumpSim (fileOn strOn prDump : Bool) (d : List Char) (s : DumpSt) : DumpSt :
   let fires := fileOn && s.info.on && prDump
   let file := if fires && s.info.any then putDump s.info.append s.file d else s.file
   if strOn then
-    { info := { s.info with any := false }, file := file,
-      str := if s.info.any then putDump s.info.append s.str d else s.str }
+    { info := if prDump && s.info.any then { s.info with any := false } else s.info, file := file,
+      str := if prDump && s.info.any then putDump s.info.append s.str d else s.str }
   else
     { info := if fires then { s.info with on := false, any := false } else s.info, file := file, str := s.str }
 
 /-- a simulation: an optional DUMP block (with its -append flag) is read, then the dump step runs -/
-def dumpStep (fileOn strOn prDump : Bool) (s : DumpSt) (sim : Option Bool × List Char) : DumpSt :=
+def dumpStep (fileOn strOn prDump : Bool) (s : DumpSt) (sim : Option (Option Bool) × List Char) : DumpSt :=
   let s1 := match sim.1 with
     | some app => s.readDump app
     | none => s
   dumpSim fileOn strOn prDump sim.2 s1
+
+/-- the same with `pr.dump` (PRINT -dump) varying from simulation to simulation -/
+def dumpStepP (fileOn strOn : Bool) (s : DumpSt) (sim : Bool × Option (Option Bool) × List Char) : DumpSt :=
+  dumpStep fileOn strOn sim.1 s sim.2
 
 /-- `GetDumpStringLine`: the line vector is refilled whenever the string is written -/
 def dumpLines (s : DumpSt) : List (List Char) := splitLines s.str
